@@ -22,7 +22,14 @@ THEOREMS = ['TexSoup.C14.' + n for n in (
     'rename_command_reparse', 'rename_environment_reparse', 'rename_reparse_of_source',
     'rename_command_reparse_of_source', 'rename_environment_reparse_of_source')] + [
     'TexSoup.Gram.WFD_rename', 'TexSoup.Gram.treeD_rename', 'TexSoup.Gram.separated_squeeze_rename',
-    'TexSoup.NVar.separated', 'TexSoup.applyEdit_rename_eq']
+    'TexSoup.NVar.separated', 'TexSoup.applyEdit_rename_eq'] + ['TexSoup.C14G.' + n for n in (
+    'set_string_reparse_general', 'set_string_reparse_edit', 'set_string_command_reparse',
+    'set_string_environment_reparse', 'set_string_command_reparse_of_source',
+    'set_string_environment_reparse_of_source')] + [
+    'TexSoup.Gram.WFD_setStr', 'TexSoup.Gram.treeD_setStr', 'TexSoup.Gram.separated_squeeze_setStr',
+    'TexSoup.SVar.separated', 'TexSoup.updAt_root_mapSel'] + ['TexSoup.C14G.' + n for n in (
+    'set_args_reparse_general', 'set_args_reparse_edit', 'set_args_command_reparse',
+    'set_args_environment_reparse', 'interleaved_args_not_read_back')] + ['TexSoup.Gram.treeD_setArgs']
 PARTIAL = ['"re-parsing the new text yields a tree that shows the same change": PROVED for renaming a command or an '
            'environment of a document of the grammar (C14G.rename_command_reparse_of_source / '
            'rename_environment_reparse_of_source, both tolerance modes: the text of applyEdit (treeD d) (.rename p new) parses '
@@ -32,12 +39,24 @@ PARTIAL = ['"re-parsing the new text yields a tree that shows the same change": 
            'neither end/begin, same signature, both or neither special) and new is no sizing prefix, resp. environment names '
            'with the same role (envRole: new without surrounding blanks, both or neither math environments, neither in the skip '
            'list; old starts with a letter, new can stand as one text token)',
-           'for node.string = s and node.args = .. the re-parse clause is explored by the oracle only (key reparse-differs), '
-           'and only for edits whose result is itself a document of the grammar: the original tree is a fixpoint of str/parse, '
-           'names are plain identifiers without a special role in the reader, new strings are letters, digits and blanks with at '
-           'least one non-blank, the new argument list is one that the reader reads back '
-           '([..]*{..}*[..]*{..}* after a command, [..]*{..}* after \\begin{name}); the oracle also checks the re-parse '
-           'clause for renames on the implementation under the same restriction']
+           'the same clause is PROVED for node.string = s on a single-argument command and on a text-only environment '
+           '(C14G.set_string_command_reparse_of_source / set_string_environment_reparse_of_source, both tolerance modes: the '
+           'text of applyEdit (treeD d) (.setString p s) parses to a tree that is equal up to positions (bareL: the assigned '
+           'string has position -1 in the edited tree and a real offset after re-parsing) and has the same text), for d as '
+           'above, the node being the only single-argument command (argument-less one-text environment) with its name at its '
+           'position, not \\item, the environment not in the skip list, and goodText s (non-empty, first character not '
+           'ignored, no backslash/brace/bracket/$/%, no leading blank run that the tokenizer splits off); the empty string '
+           'and a string with a closing brace are shown to re-parse differently',
+           'for node.args = [own arguments, reordered/sliced] the clause is PROVED conditionally '
+           '(C14G.set_args_command_reparse / set_args_environment_reparse, both tolerance modes, tied to applyEdit .. (.setArgs p '
+           '(pick idx args))): the kinds of the new list are of the form [..]^k {..}^l [..]^m {..}^n (environments: '
+           '{..}^l [..]^m {..}^n behind \\begin{name}), the re-argumented grammar document is well-formed (Gram.WFD, '
+           'decidable: the signature of the name and the tokens that follow admit exactly this run, Gram.runOK) and its squeezed '
+           'token list is a tokenizer output (hypotheses, not derived from the source); it is REFUTED for other reorderings '
+           '(C14G.interleaved_args_not_read_back: \\x[b][d]{a}{c} with args = [args[2], args[0], args[3], args[1]] prints '
+           '\\x{a}[b]{c}[d], which is read as three arguments and the text [d]) and for a slice to the empty list in front of a '
+           'letter (exGlue: \\x{a}b -> \\xb); on the implementation the oracle explores the clause (key reparse-differs) only '
+           'for lists of the readable form, names without a special role in the reader and fixpoint documents']
 TRUSTED = ['hand-written model of the node edits (lean/TexSoupModel/Edit.lean), tied to TexSoup/data.py by the '
            'correspondence run only',
            'correspondence harness (props/c14.py, lib_edit.py): structural paths, node acquisition through .contents by '
@@ -155,6 +174,15 @@ def node_edits(base, rng, cap=None, for_model=False):
                 gm = [m for m in L.ARG_MATS if m[0] == 'g']
                 out.append(('aop %s sins %d %s' % (p, rng.randint(0, n), rng.choice(gm)), True))
                 out.append(('aop %s sapp %s' % (p, rng.choice(gm)), True))
+                # kept slices (a slice is a copy): keep = args[lo:hi]; edit the node's list in place; the slice still has
+                # the old elements; args = keep - and the converse: editing the kept slice leaves the node alone
+                bounds = L.slice_bounds(n)
+                inner = ['rev', 'clr', 'pop 0', 'pop -1', 'ins 0 ' + gm[0], 'app ' + gm[1 % len(gm)], 'set 0 ' + gm[0]]
+                for lo, hi in (bounds if full else rng.sample(bounds, 4)):
+                    for op_in in (inner if full else rng.sample(inner, 2)):
+                        out.append(('aop %s ks %s %s %s' % (p, lo, hi, op_in), True))
+                    out.append(('aop %s kc %s %s %s' % (p, lo, hi, rng.choice(['pop 0', 'rev'])), True))
+                    out.append(('aop %s kca %s %s %s' % (p, lo, hi, rng.choice(['pop 0', 'rev', 'pop -1'])), True))
             k = rng.randint(0, 3)
             out.append(('args %s %s' % (p, ','.join(rng.choice(L.ARG_MATS) for _ in range(k)) or '_'), twin or n >= 1))
         if not isinstance(x, D.TexText):
@@ -272,9 +300,11 @@ def check_edit(base, before, fixpoint, op):
             strict = False
         elif not isinstance(x, D.TexCmd):
             strict = not any(L.flat_contents(a) for a in x.args)
+    if kind == 'aop' and res[0] == 'refuse':
+        strict = False                    # the list operation itself raises (pop from an empty list ..): nothing may change
     eligible = fixpoint and reparse_eligible(P, x)
     chosen = None
-    if kind == 'aop':
+    if kind == 'aop' and res[0] == 'splice':
         chosen = [id(a) for a in res[2]['ref']]
     exc = None
     try:
@@ -316,6 +346,36 @@ def check_edit(base, before, fixpoint, op):
         if soup.count(new) != len(g_new) or (g_new and soup.find(new).expr is not soup.find_all(new)[0].expr):
             return ('rename-search', '%s: count/find(%r) disagree with find_all' % (what, new))
     # explored clause: the re-parsed text shows the same change
+    if eligible == 'unreadable-run':
+        # input class of the recorded finding F21 (kinds of the new list not of the form [*{*[*{*, resp. [*{* after
+        # \begin{name}): reported under its own key when the re-parse indeed differs
+        try:
+            again = _canon(T.TexSoup(after))
+        except RecursionError:
+            raise
+        except Exception as e:
+            again = 'raises %s' % type(e).__name__
+        if again != _canon(soup):
+            return ('reparse-unreadable-args', '%s: %r is not read back as one argument run (%s)' % (
+                what, after[:120], again[:160]))
+        return None
+    if eligible and kind in ('args', 'aop') and isinstance(x, D.TexCmd) and res[0] == 'splice' and len(res[1]) == 1 \
+            and res[1][0][2] == '' and res[1][0][1] > 0:
+        # all arguments removed: if a letter (or `*`) follows, the printed name runs into it (`\\x{a}b` -> `\\xb`);
+        # input class of the recorded finding F21b
+        k, n, _ = res[1][0]
+        nxt = before[k + n:k + n + 1]
+        if nxt and (nxt in LETTERS_STAR):
+            try:
+                again = _canon(T.TexSoup(after))
+            except RecursionError:
+                raise
+            except Exception as e:
+                again = 'raises %s' % type(e).__name__
+            if again != _canon(soup):
+                return ('reparse-name-glued', '%s: %r - the command name runs into the following text (%s)' % (
+                    what, after[:120], again[:160]))
+            return None
     if eligible:
         try:
             again = _canon(T.TexSoup(after))
@@ -329,6 +389,9 @@ def check_edit(base, before, fixpoint, op):
                 what, after[:120], again[:200], mine[:200]))
         return 'reparsed'
     return None
+
+
+LETTERS_STAR = 'abcdefghijklmnopqrstuvwxyzABCDEFGHIJKLMNOPQRSTUVWXYZ*'
 
 
 def soup_args(soup, path):
@@ -345,11 +408,16 @@ def reparse_eligible(P, x):
         if P.kind == 'args':
             new = P.mats
         else:
-            new = L._list_op(P, list(x.args))
+            try:
+                new = L._list_op(P, list(x.args))
+            except (IndexError, ValueError):
+                return False
         shape = ''.join('o' if isinstance(a, D.BracketGroup) else 'r' if isinstance(a, D.BraceGroup) else '?'
                         for a in new)
         # what read_args reads back: [..]*{..}*[..]*{..}* after a command, [..]*{..}* after \begin{name}
         pattern = r'o*r*\Z' if isinstance(x, D.TexNamedEnv) else r'o*r*o*r*\Z'
+        if ordinary(str(x.name)) and re.match(pattern, shape) is None and '?' not in shape:
+            return 'unreadable-run'       # recorded finding F21: the printed run is not read back as one argument list
         return ordinary(str(x.name)) and re.match(pattern, shape) is not None
     if P.kind == 'str':
         return _plain_text(P.string)
@@ -373,6 +441,20 @@ def describe(op):
         sub = 'a = node.args; a.insert(%s, %s); node.args = a' % (w[3], L.mat_show(w[4]))
     if w[2] == 'sapp':
         sub = 'a = node.args; a.append(%s); node.args = a' % L.mat_show(w[3])
+    if w[2] in ('ks', 'kc', 'kca'):
+        sl = 'node.args[%s:%s]' % ('' if w[3] == '_' else w[3], '' if w[4] == '_' else w[4])
+        who = 'node.args' if w[2] == 'ks' else 'keep'
+        inner = {'rev': '%s.reverse()', 'clr': '%s.clear()'}.get(w[5], '%s.' + w[5] + '(..)') % who
+        if w[5] == 'pop':
+            inner = '%s.pop(%s)' % (who, w[6])
+        elif w[5] == 'ins':
+            inner = '%s.insert(%s, %s)' % (who, w[6], L.mat_show(w[7]))
+        elif w[5] == 'app':
+            inner = '%s.append(%s)' % (who, L.mat_show(w[6]))
+        elif w[5] == 'set':
+            inner = '%s[%s] = %s' % (who, w[6], L.mat_show(w[7]))
+        sub = 'keep = %s; %s%s' % (sl, inner, '; (keep must hold the old elements;) node.args = keep' if w[2] == 'ks'
+                                   else '; node.args = keep' if w[2] == 'kca' else ' (the node keeps its arguments)')
     if w[2] == 'sl':
         sub = 'node.args = node.args[%s:%s]' % (w[3], w[4])
     if w[2] == 'perm':
@@ -437,7 +519,10 @@ def oracle(ctx, seeds, scale):
               'node.args assigned the reversal ([::-1] and .reverse()), prefixes, slices, permutations of its own arguments '
               '(TexArgs slicing) or foreign arguments, or the node\'s own list object put back after nothing / reverse() / '
               'pop(i) / insert(i, group) / append(group) on it in place (a = node.args; ..; node.args = a: the list as it is '
-              'after the in-place edit): exactly the argument span becomes the concatenation of their texts and '
+              'after the in-place edit), or a slice kept across an in-place edit (keep = node.args[lo:hi] for every bound shape, '
+              'the full-range ones included; reverse/clear/pop/insert/append/slot assignment on node.args; keep must still '
+              'hold the old elements; node.args = keep - and pop/reverse on keep must leave the node alone until keep is '
+              'assigned; a slice is a copy): exactly the argument span becomes the concatenation of their texts and '
               'the list holds those objects. An edit that raises must leave str(soup) unchanged. Explored clause (see '
               'partial_clauses): TexSoup(str(soup)) and the edited tree have the same canonical tree without positions. '
               'Documents: hand-written, lib_edit.gen_doc, short repository documents; %s; non-trivial = textual twin of the '
